@@ -180,6 +180,20 @@ def check(rep: Report, ctx: Ctx) -> None:
     else:
         wn = cfg.container(wc[0])
         ok = cfg.every_path_passes(ENTRY, EXIT, {wn})
+        if not ok:
+            # tolerated: skipping the flush when nothing is pending
+            guards = enclosing(exit_.node, wc[0], (ast.If,))
+            tol = bool(guards) and all(
+                unparse(g.test) in (
+                    "self.node_models_to_save",
+                    "len(self.node_models_to_save) > 0",
+                    "len(self.node_models_to_save)",
+                    "self.node_models_to_save or "
+                    "self.node_relationships_to_save")
+                and any(x is wc[0] for st in g.body for x in ast.walk(st))
+                for g in guards)
+            ok = tol and cfg.every_path_passes(
+                ENTRY, EXIT, {cfg.node(guards[0])})
         rep.ob("R10.4", "every normal path of __exit__ flushes", ok,
                fi=exit_, node=wc[0],
                detail="the wrapper call is on every path from entry to "
